@@ -1,4 +1,5 @@
 """C15 - disk space accounting is exact: files that fit are stored, others fail cleanly."""
+import json
 import os
 
 from hypothesis import strategies as st
@@ -14,12 +15,13 @@ RULE = ("memory: histories of add_file on a blank DiskFile (default or permuted 
         "VirtualFile(open, add, save(append)) on a host file (absent at first, or an existing freshly formatted image), as the CLIs do; a refused add must raise and leave the host "
         "file byte-identical; later smaller files must still be accepted. Enumerated: 68 one-granule files then a 69th; "
         "three files filling exactly 68 granules and one granule more; stream lengths on both sides of every granule multiple up "
-        "to 6. Non-trivial = the history ends within 2 granules of full or contains a refused add; distinct by case hash.")
+        "to 6; one file object stored five (17 granules) or 69 (one granule) times with its stream 0-6 bytes below a granule "
+        "multiple - every copy must be charged what the first was. Non-trivial = the history ends within 2 granules of full or contains a refused add; distinct by case hash.")
 ASSUMPTIONS = [
     "granule demand model: n = (data + header/trailer bytes) // 2304 + 1 (the property's 'minimum, or one more on an exact multiple')",
     "directory-slot exhaustion cannot be reached on a valid 35-track image (68 granules < 72 slots); it is not claimed as covered",
 ]
-HEALTH = {"near_full": 0.12, "refused": 0.1, "mode:host": 16}
+HEALTH = {"near_full": 0.12, "refused": 0.1, "mode:host": 16, "same_object_again": 20}
 EXHAUSTIVE = {"quick": ["68 one-granule files + 1", "28+28+12 granules exactly full / one more", "stream lengths 2304k-1, 2304k, 2304k+1 for k=1..6 x 3 kinds"],
               "thorough": ["as quick"]}
 
@@ -84,6 +86,14 @@ def enumerated(tier, seed):
     # ASCII files carry no 16-bit length and may be longer than 64 KiB: 29, 40 and all 68 granules
     for need in (29, 40, 68):
         yield dict(mode="memory", order=None, files=[_sized("ascii", need, 0, 1), _sized("ascii", 68 - need + 1, 0, 2), _sized("ascii", max(68 - need, 1), 0, 3)])
+    # one and the same file object stored again and again (copies of a file): every copy needs what the first needed.
+    # Stream lengths within 6 bytes below a granule multiple, so that a file that grew by a few bytes would need one more
+    for kind in ("ml", "basic", "ascii", "ml_ascii"):
+        for slack in range(0, 7):
+            f = _sized(kind, 17, slack, 40 + slack)
+            yield dict(mode="memory", order=None, reuse=True, files=[f, f, f, f, f])
+            g = _sized(kind, 1, slack, 50 + slack)
+            yield dict(mode="memory", order=list(range(67, -1, -1)), reuse=True, files=[g] * 69)
     yield dict(mode="host", files=[_sized("ascii", 30, 0, 1), _sized("ascii", 38, -1, 2), _sized("ml", 1, 0, 3)])
     yield dict(mode="host", blank_start=True, files=[_sized("ml", 1, 5, 1), _sized("basic", 2, 0, 2), _sized("ascii", 65, 0, 3), _sized("ml", 1, 0, 4)])
     yield dict(mode="host", files=[_sized("ml", 28, 0, 1), _sized("ml", 28, 0, 2), _sized("ml", 13, 0, 3), _sized("ml", 12, 0, 4), _sized("ascii", 1, 0, 5)])
@@ -124,11 +134,19 @@ def execute(case):
         disk = DiskFile(granule_fill_order=list(case["order"]) if case.get("order") else None)
         fat, live = _fat_dir(disk.get_buffer())
         accepted = []
+        objects = {}
+        if case.get("reuse"):
+            labels.append("same_object_again")
         for idx, f in enumerate(files):
             need = filegen.stream_len(f) // 2304 + 1
             data = filegen.expand(f["data"])
+            if case.get("reuse"):       # the caller stores one and the same file object again (a second copy of a file)
+                key = json.dumps(f, sort_keys=True)
+                obj = objects.setdefault(key, filegen.to_coco(f, data))
+            else:
+                obj = filegen.to_coco(f, data)
             try:
-                disk.add_file(filegen.to_coco(f, data))
+                disk.add_file(obj)
                 raised = None
             except Exception as err:
                 raised = err
